@@ -101,57 +101,65 @@ pub fn init_math(interp: &mut Interpreter) -> Gc<JsObject> {
     result
 }
 
+/// ToNumber of the i-th argument (NaN when it is missing); objects go through valueOf/toString
+fn number_arg(interp: &mut Interpreter, args: &[JsValue], i: usize) -> Result<f64, JsError> {
+    match args.get(i) {
+        Some(v) => interp.coerce_to_number(v),
+        None => Ok(f64::NAN),
+    }
+}
+
 pub fn math_abs(
-    _interp: &mut Interpreter,
+    interp: &mut Interpreter,
     _this: JsValue,
     args: &[JsValue],
 ) -> Result<Guarded, JsError> {
-    let n = args.first().map(|v| v.to_number()).unwrap_or(f64::NAN);
+    let n = number_arg(interp, args, 0)?;
     Ok(Guarded::unguarded(JsValue::Number(n.abs())))
 }
 
 pub fn math_floor(
-    _interp: &mut Interpreter,
+    interp: &mut Interpreter,
     _this: JsValue,
     args: &[JsValue],
 ) -> Result<Guarded, JsError> {
-    let n = args.first().map(|v| v.to_number()).unwrap_or(f64::NAN);
+    let n = number_arg(interp, args, 0)?;
     Ok(Guarded::unguarded(JsValue::Number(prelude_math::floor(n))))
 }
 
 pub fn math_ceil(
-    _interp: &mut Interpreter,
+    interp: &mut Interpreter,
     _this: JsValue,
     args: &[JsValue],
 ) -> Result<Guarded, JsError> {
-    let n = args.first().map(|v| v.to_number()).unwrap_or(f64::NAN);
+    let n = number_arg(interp, args, 0)?;
     Ok(Guarded::unguarded(JsValue::Number(prelude_math::ceil(n))))
 }
 
 pub fn math_round(
-    _interp: &mut Interpreter,
+    interp: &mut Interpreter,
     _this: JsValue,
     args: &[JsValue],
 ) -> Result<Guarded, JsError> {
-    let n = args.first().map(|v| v.to_number()).unwrap_or(f64::NAN);
+    let n = number_arg(interp, args, 0)?;
     Ok(Guarded::unguarded(JsValue::Number(prelude_math::round(n))))
 }
 
 pub fn math_trunc(
-    _interp: &mut Interpreter,
+    interp: &mut Interpreter,
     _this: JsValue,
     args: &[JsValue],
 ) -> Result<Guarded, JsError> {
-    let n = args.first().map(|v| v.to_number()).unwrap_or(f64::NAN);
+    let n = number_arg(interp, args, 0)?;
     Ok(Guarded::unguarded(JsValue::Number(prelude_math::trunc(n))))
 }
 
 pub fn math_sign(
-    _interp: &mut Interpreter,
+    interp: &mut Interpreter,
     _this: JsValue,
     args: &[JsValue],
 ) -> Result<Guarded, JsError> {
-    let n = args.first().map(|v| v.to_number()).unwrap_or(f64::NAN);
+    let n = number_arg(interp, args, 0)?;
     let result = if n.is_nan() {
         f64::NAN
     } else if n > 0.0 {
@@ -196,83 +204,93 @@ pub fn math_imul(
 }
 
 pub fn math_min(
-    _interp: &mut Interpreter,
+    interp: &mut Interpreter,
     _this: JsValue,
     args: &[JsValue],
 ) -> Result<Guarded, JsError> {
-    if args.is_empty() {
-        return Ok(Guarded::unguarded(JsValue::Number(f64::INFINITY)));
-    }
+    // Every argument is coerced (in order) before the comparison; -0 is below +0
     let mut min = f64::INFINITY;
+    let mut nan = false;
     for arg in args {
-        let n = arg.to_number();
+        let n = interp.coerce_to_number(arg)?;
         if n.is_nan() {
-            return Ok(Guarded::unguarded(JsValue::Number(f64::NAN)));
+            nan = true;
         }
-        if n < min {
+        if n < min || (n == 0.0 && min == 0.0 && n.is_sign_negative()) {
             min = n;
         }
     }
-    Ok(Guarded::unguarded(JsValue::Number(min)))
+    Ok(Guarded::unguarded(JsValue::Number(if nan {
+        f64::NAN
+    } else {
+        min
+    })))
 }
 
 pub fn math_max(
-    _interp: &mut Interpreter,
+    interp: &mut Interpreter,
     _this: JsValue,
     args: &[JsValue],
 ) -> Result<Guarded, JsError> {
-    if args.is_empty() {
-        return Ok(Guarded::unguarded(JsValue::Number(f64::NEG_INFINITY)));
-    }
+    // Every argument is coerced (in order) before the comparison; +0 is above -0
     let mut max = f64::NEG_INFINITY;
+    let mut nan = false;
     for arg in args {
-        let n = arg.to_number();
+        let n = interp.coerce_to_number(arg)?;
         if n.is_nan() {
-            return Ok(Guarded::unguarded(JsValue::Number(f64::NAN)));
+            nan = true;
         }
-        if n > max {
+        if n > max || (n == 0.0 && max == 0.0 && n.is_sign_positive()) {
             max = n;
         }
     }
-    Ok(Guarded::unguarded(JsValue::Number(max)))
+    Ok(Guarded::unguarded(JsValue::Number(if nan {
+        f64::NAN
+    } else {
+        max
+    })))
 }
 
 pub fn math_pow(
-    _interp: &mut Interpreter,
+    interp: &mut Interpreter,
     _this: JsValue,
     args: &[JsValue],
 ) -> Result<Guarded, JsError> {
-    let base = args.first().map(|v| v.to_number()).unwrap_or(f64::NAN);
-    let exp = args.get(1).map(|v| v.to_number()).unwrap_or(f64::NAN);
-    Ok(Guarded::unguarded(JsValue::Number(prelude_math::powf(
-        base, exp,
-    ))))
+    let base = number_arg(interp, args, 0)?;
+    let exp = number_arg(interp, args, 1)?;
+    // Same as the ** operator: a NaN exponent gives NaN, and (+-1) ** (+-Infinity) is NaN
+    let result = if exp.is_nan() || (exp.is_infinite() && (base == 1.0 || base == -1.0)) {
+        f64::NAN
+    } else {
+        prelude_math::powf(base, exp)
+    };
+    Ok(Guarded::unguarded(JsValue::Number(result)))
 }
 
 pub fn math_sqrt(
-    _interp: &mut Interpreter,
+    interp: &mut Interpreter,
     _this: JsValue,
     args: &[JsValue],
 ) -> Result<Guarded, JsError> {
-    let n = args.first().map(|v| v.to_number()).unwrap_or(f64::NAN);
+    let n = number_arg(interp, args, 0)?;
     Ok(Guarded::unguarded(JsValue::Number(prelude_math::sqrt(n))))
 }
 
 pub fn math_log(
-    _interp: &mut Interpreter,
+    interp: &mut Interpreter,
     _this: JsValue,
     args: &[JsValue],
 ) -> Result<Guarded, JsError> {
-    let n = args.first().map(|v| v.to_number()).unwrap_or(f64::NAN);
+    let n = number_arg(interp, args, 0)?;
     Ok(Guarded::unguarded(JsValue::Number(prelude_math::ln(n))))
 }
 
 pub fn math_exp(
-    _interp: &mut Interpreter,
+    interp: &mut Interpreter,
     _this: JsValue,
     args: &[JsValue],
 ) -> Result<Guarded, JsError> {
-    let n = args.first().map(|v| v.to_number()).unwrap_or(f64::NAN);
+    let n = number_arg(interp, args, 0)?;
     Ok(Guarded::unguarded(JsValue::Number(prelude_math::exp(n))))
 }
 
@@ -286,186 +304,193 @@ pub fn math_random(
 }
 
 pub fn math_sin(
-    _interp: &mut Interpreter,
+    interp: &mut Interpreter,
     _this: JsValue,
     args: &[JsValue],
 ) -> Result<Guarded, JsError> {
-    let n = args.first().map(|v| v.to_number()).unwrap_or(f64::NAN);
+    let n = number_arg(interp, args, 0)?;
     Ok(Guarded::unguarded(JsValue::Number(prelude_math::sin(n))))
 }
 
 pub fn math_cos(
-    _interp: &mut Interpreter,
+    interp: &mut Interpreter,
     _this: JsValue,
     args: &[JsValue],
 ) -> Result<Guarded, JsError> {
-    let n = args.first().map(|v| v.to_number()).unwrap_or(f64::NAN);
+    let n = number_arg(interp, args, 0)?;
     Ok(Guarded::unguarded(JsValue::Number(prelude_math::cos(n))))
 }
 
 pub fn math_tan(
-    _interp: &mut Interpreter,
+    interp: &mut Interpreter,
     _this: JsValue,
     args: &[JsValue],
 ) -> Result<Guarded, JsError> {
-    let n = args.first().map(|v| v.to_number()).unwrap_or(f64::NAN);
+    let n = number_arg(interp, args, 0)?;
     Ok(Guarded::unguarded(JsValue::Number(prelude_math::tan(n))))
 }
 
 pub fn math_asin(
-    _interp: &mut Interpreter,
+    interp: &mut Interpreter,
     _this: JsValue,
     args: &[JsValue],
 ) -> Result<Guarded, JsError> {
-    let n = args.first().map(|v| v.to_number()).unwrap_or(f64::NAN);
+    let n = number_arg(interp, args, 0)?;
     Ok(Guarded::unguarded(JsValue::Number(prelude_math::asin(n))))
 }
 
 pub fn math_acos(
-    _interp: &mut Interpreter,
+    interp: &mut Interpreter,
     _this: JsValue,
     args: &[JsValue],
 ) -> Result<Guarded, JsError> {
-    let n = args.first().map(|v| v.to_number()).unwrap_or(f64::NAN);
+    let n = number_arg(interp, args, 0)?;
     Ok(Guarded::unguarded(JsValue::Number(prelude_math::acos(n))))
 }
 
 pub fn math_atan(
-    _interp: &mut Interpreter,
+    interp: &mut Interpreter,
     _this: JsValue,
     args: &[JsValue],
 ) -> Result<Guarded, JsError> {
-    let n = args.first().map(|v| v.to_number()).unwrap_or(f64::NAN);
+    let n = number_arg(interp, args, 0)?;
     Ok(Guarded::unguarded(JsValue::Number(prelude_math::atan(n))))
 }
 
 pub fn math_atan2(
-    _interp: &mut Interpreter,
+    interp: &mut Interpreter,
     _this: JsValue,
     args: &[JsValue],
 ) -> Result<Guarded, JsError> {
-    let y = args.first().map(|v| v.to_number()).unwrap_or(f64::NAN);
-    let x = args.get(1).map(|v| v.to_number()).unwrap_or(f64::NAN);
+    let y = number_arg(interp, args, 0)?;
+    let x = number_arg(interp, args, 1)?;
     Ok(Guarded::unguarded(JsValue::Number(prelude_math::atan2(
         y, x,
     ))))
 }
 
 pub fn math_sinh(
-    _interp: &mut Interpreter,
+    interp: &mut Interpreter,
     _this: JsValue,
     args: &[JsValue],
 ) -> Result<Guarded, JsError> {
-    let n = args.first().map(|v| v.to_number()).unwrap_or(f64::NAN);
+    let n = number_arg(interp, args, 0)?;
     Ok(Guarded::unguarded(JsValue::Number(prelude_math::sinh(n))))
 }
 
 pub fn math_cosh(
-    _interp: &mut Interpreter,
+    interp: &mut Interpreter,
     _this: JsValue,
     args: &[JsValue],
 ) -> Result<Guarded, JsError> {
-    let n = args.first().map(|v| v.to_number()).unwrap_or(f64::NAN);
+    let n = number_arg(interp, args, 0)?;
     Ok(Guarded::unguarded(JsValue::Number(prelude_math::cosh(n))))
 }
 
 pub fn math_tanh(
-    _interp: &mut Interpreter,
+    interp: &mut Interpreter,
     _this: JsValue,
     args: &[JsValue],
 ) -> Result<Guarded, JsError> {
-    let n = args.first().map(|v| v.to_number()).unwrap_or(f64::NAN);
+    let n = number_arg(interp, args, 0)?;
     Ok(Guarded::unguarded(JsValue::Number(prelude_math::tanh(n))))
 }
 
 pub fn math_asinh(
-    _interp: &mut Interpreter,
+    interp: &mut Interpreter,
     _this: JsValue,
     args: &[JsValue],
 ) -> Result<Guarded, JsError> {
-    let n = args.first().map(|v| v.to_number()).unwrap_or(f64::NAN);
+    let n = number_arg(interp, args, 0)?;
     Ok(Guarded::unguarded(JsValue::Number(prelude_math::asinh(n))))
 }
 
 pub fn math_acosh(
-    _interp: &mut Interpreter,
+    interp: &mut Interpreter,
     _this: JsValue,
     args: &[JsValue],
 ) -> Result<Guarded, JsError> {
-    let n = args.first().map(|v| v.to_number()).unwrap_or(f64::NAN);
+    let n = number_arg(interp, args, 0)?;
     Ok(Guarded::unguarded(JsValue::Number(prelude_math::acosh(n))))
 }
 
 pub fn math_atanh(
-    _interp: &mut Interpreter,
+    interp: &mut Interpreter,
     _this: JsValue,
     args: &[JsValue],
 ) -> Result<Guarded, JsError> {
-    let n = args.first().map(|v| v.to_number()).unwrap_or(f64::NAN);
+    let n = number_arg(interp, args, 0)?;
     Ok(Guarded::unguarded(JsValue::Number(prelude_math::atanh(n))))
 }
 
 pub fn math_cbrt(
-    _interp: &mut Interpreter,
+    interp: &mut Interpreter,
     _this: JsValue,
     args: &[JsValue],
 ) -> Result<Guarded, JsError> {
-    let n = args.first().map(|v| v.to_number()).unwrap_or(f64::NAN);
+    let n = number_arg(interp, args, 0)?;
     Ok(Guarded::unguarded(JsValue::Number(prelude_math::cbrt(n))))
 }
 
 pub fn math_hypot(
-    _interp: &mut Interpreter,
+    interp: &mut Interpreter,
     _this: JsValue,
     args: &[JsValue],
 ) -> Result<Guarded, JsError> {
-    if args.is_empty() {
+    // Every argument is coerced first; an infinity wins over a NaN
+    let mut values = Vec::with_capacity(args.len());
+    for arg in args {
+        values.push(interp.coerce_to_number(arg)?);
+    }
+    if values.iter().any(|n| n.is_infinite()) {
+        return Ok(Guarded::unguarded(JsValue::Number(f64::INFINITY)));
+    }
+    if values.iter().any(|n| n.is_nan()) {
+        return Ok(Guarded::unguarded(JsValue::Number(f64::NAN)));
+    }
+    // Scale by the largest magnitude so that the squares neither overflow nor vanish
+    let largest = values.iter().fold(0.0_f64, |m, n| m.max(n.abs()));
+    if largest == 0.0 {
         return Ok(Guarded::unguarded(JsValue::Number(0.0)));
     }
-    let sum_sq: f64 = args
-        .iter()
-        .map(|v| {
-            let n = v.to_number();
-            n * n
-        })
-        .sum();
-    Ok(Guarded::unguarded(JsValue::Number(prelude_math::sqrt(
-        sum_sq,
-    ))))
+    let sum_sq: f64 = values.iter().map(|n| (n / largest) * (n / largest)).sum();
+    Ok(Guarded::unguarded(JsValue::Number(
+        prelude_math::sqrt(sum_sq) * largest,
+    )))
 }
 
 pub fn math_log10(
-    _interp: &mut Interpreter,
+    interp: &mut Interpreter,
     _this: JsValue,
     args: &[JsValue],
 ) -> Result<Guarded, JsError> {
-    let n = args.first().map(|v| v.to_number()).unwrap_or(f64::NAN);
+    let n = number_arg(interp, args, 0)?;
     Ok(Guarded::unguarded(JsValue::Number(prelude_math::log10(n))))
 }
 
 pub fn math_log2(
-    _interp: &mut Interpreter,
+    interp: &mut Interpreter,
     _this: JsValue,
     args: &[JsValue],
 ) -> Result<Guarded, JsError> {
-    let n = args.first().map(|v| v.to_number()).unwrap_or(f64::NAN);
+    let n = number_arg(interp, args, 0)?;
     Ok(Guarded::unguarded(JsValue::Number(prelude_math::log2(n))))
 }
 
 pub fn math_log1p(
-    _interp: &mut Interpreter,
+    interp: &mut Interpreter,
     _this: JsValue,
     args: &[JsValue],
 ) -> Result<Guarded, JsError> {
-    let n = args.first().map(|v| v.to_number()).unwrap_or(f64::NAN);
+    let n = number_arg(interp, args, 0)?;
     Ok(Guarded::unguarded(JsValue::Number(prelude_math::log1p(n))))
 }
 
 pub fn math_expm1(
-    _interp: &mut Interpreter,
+    interp: &mut Interpreter,
     _this: JsValue,
     args: &[JsValue],
 ) -> Result<Guarded, JsError> {
-    let n = args.first().map(|v| v.to_number()).unwrap_or(f64::NAN);
+    let n = number_arg(interp, args, 0)?;
     Ok(Guarded::unguarded(JsValue::Number(prelude_math::expm1(n))))
 }
